@@ -81,11 +81,13 @@ def check_sid(ref, prefs, Sid, typ, s, rec, table):
             p2 = Sid(fields=dict(reversed(list(fields.items())))).path(cname)
             Sid(s + "/zz").path(cname)  # unrelated call in between
             p3 = x.path(cname)
+            p4 = x.path(config=cname)           # the other spelling of the same call
         except Exception as e:  # noqa
             out.append(dict(signature=f"path/exception/{type(e).__name__}", observed=[cname, repr(e)], expected=want))
             continue
-        if not (p1 == p2 == p3):
-            out.append(dict(signature="path/not-pure", observed=[cname, str(p1), str(p2), str(p3)], expected=want))
+        if not (p1 == p2 == p3 == p4):
+            out.append(dict(signature="path/not-pure" + ("" if p1 == p2 == p3 else "/across-calls") + ("" if p3 == p4 else "/keyword-spelling"),
+                            observed=[cname, str(p1), str(p2), str(p3), str(p4)], expected=want))
         if (str(p1) if p1 is not None else None) != want:
             sig = "path/none-expected" if want is None else ("path/missing" if p1 is None else "path/differs-from-template-rendering")
             out.append(dict(signature=sig, observed=[cname, str(p1)], expected=want))
